@@ -3,6 +3,7 @@ package props
 import (
 	"fmt"
 	"math/big"
+	"sync"
 	"testing"
 	"time"
 
@@ -529,3 +530,74 @@ func runC07(cs c07Case) *Outcome {
 }
 
 func TestC07(t *testing.T) { runProp(t, "C07", genC07, runC07) }
+
+// FuzzC07Shape — coverage-guided mutation of whole tx bytes seeded from valid shapes of both lanes; the oracle is the
+// same one-directional acceptance rule: whatever CheckTx / FinalizeBlock admit must satisfy the Ethereum-lane shape if it
+// carries an Ethereum message, and must not nest or grant a disabled message.
+func FuzzC07Shape(f *testing.F) {
+	c, err := chain.NewStarted(c07World(), chain.NodeOpts{})
+	if err != nil {
+		f.Fatal(err)
+	}
+	if _, err := c.RunBlock(chain.Block{Dt: 1}); err != nil {
+		f.Fatal(err)
+	}
+	ctx := c.CommittedCtx()
+	seeds := []c07Shape{
+		{Msgs: []c07Msg{{Kind: "eth"}}, Ext: "eth"},
+		{Msgs: []c07Msg{{Kind: "eth"}}, Ext: "eth", Memo: "m"},
+		{Msgs: []c07Msg{{Kind: "eth"}, {Kind: "send"}}, Ext: "eth", Sig: "valid"},
+		{Msgs: []c07Msg{{Kind: "send"}}, Sig: "valid"},
+		{Msgs: []c07Msg{{Kind: "exec", Kids: []c07Msg{{Kind: "send"}, {Kind: "exec", Kids: []c07Msg{{Kind: "eth"}}}}}}, Sig: "valid"},
+		{Msgs: []c07Msg{{Kind: "exec", Kids: []c07Msg{{Kind: "send"}}}, {Kind: "exec", Kids: []c07Msg{{Kind: "vest"}}}}, Sig: "valid"},
+		{Msgs: []c07Msg{{Kind: "grant", GrantURL: c07URLs[0]}}, Sig: "valid"},
+		{Msgs: []c07Msg{{Kind: "eth"}}, Ext: "eth+dyn", Payer: true},
+	}
+	for i, s := range seeds {
+		accNum, seq, _ := c.AccountInfo(ctx, chain.K(i%c07Keys).Acc())
+		if bz, _, err := buildC07(c, s, i%c07Keys, seq, accNum); err == nil {
+			f.Add(bz)
+		}
+	}
+	var mu sync.Mutex
+	f.Fuzz(func(t *testing.T, bz []byte) {
+		mu.Lock()
+		defer mu.Unlock()
+		var raw txtypes.Tx
+		if err := raw.Unmarshal(bz); err != nil || raw.Body == nil || raw.AuthInfo == nil {
+			return
+		}
+		hasEth := false
+		for _, m := range raw.Body.Messages {
+			if m.TypeUrl == "/ethermint.evm.v1.MsgEthereumTx" {
+				hasEth = true
+			}
+		}
+		var msgs []sdk.Msg
+		if dtx, err := c.TxCfg.TxDecoder()(bz); err == nil {
+			msgs = dtx.GetMsgs()
+		}
+		nested, grant := c07Nested(msgs, 1)
+		if !hasEth && !nested && !grant {
+			return
+		}
+		res, err := c.CheckTx(bz, false)
+		if len(c.Panics) > 0 {
+			p := c.Panics[0]
+			c.Panics = nil
+			t.Fatalf("panic escaped CheckTx: %s", truncS(p, 800))
+		}
+		if err != nil || res == nil || res.Code != 0 {
+			return
+		}
+		if ok, why := ethShapeOK(&raw, chain.Denom); hasEth && !ok {
+			t.Fatalf("CheckTx accepted a tx containing an Ethereum message that violates the Ethereum-lane shape: %s", why)
+		}
+		if nested {
+			t.Fatalf("CheckTx accepted a tx nesting an Ethereum/vesting-creation message inside exec")
+		}
+		if grant {
+			t.Fatalf("CheckTx accepted a grant for an Ethereum/vesting-creation message")
+		}
+	})
+}
